@@ -55,6 +55,7 @@ func (d Decryptor) Decrypt(ct *Ciphertext, pt *Plaintext) {
 	ringQ := d.ringQ.AtLevel(level)
 
 	pt.Resize(0, level)
+	pt.Value = pt.Element.Value[0] // pt.Value is a second header on the same polynomial: keep it at the new level
 
 	*pt.MetaData = *ct.MetaData
 
